@@ -4,6 +4,10 @@ From stdpp Require Import gmap.
 From Drummer.Model Require Import Base DB Launch.
 Local Open Scope N_scope.
 
+(** constants and the tail of the draw scripts, so that the generated files need few numerals *)
+Definition two62 : N := 4611686018427387904.
+Definition rampN (n : nat) : list N := map N.of_nat (seq 0 n).
+
 (** a NodeHost as the executor builds it: address, region, last tick, hosted shard ids *)
 Definition mkH (a r t : N) (ss : list N) : hostspec := mkHost a 0 r t [] (list_to_set ss).
 
@@ -30,11 +34,11 @@ Definition outcome_eqb (a b : outcome) : bool :=
   | _, _ => false
   end.
 
-(** launch case: the model's outcome for the scripted draws equals the observed one.
+(** * Exact comparison: the model's outcome for the scripted draws equals the observed one.
     One tolerance: "refused" on one side and "script ran out" on the other agree.  Which of the two
     happens for an unplaceable launch under a too short script depends only on whether a test is made
     before or after some sampling, which no caller can observe with a real random source (both mean
-    "no plan"; whether a refusal is legitimate is decided by the monitors, not by this comparison). *)
+    "no plan"; whether a refusal is legitimate is decided by [allowed] and the monitors). *)
 Definition outcome_agree (model obs : outcome) : bool :=
   match model, obs with
   | Refused, OutOfDraws | OutOfDraws, Refused => true
@@ -45,8 +49,102 @@ Definition lcase (ttl tick : N) (fleet : list hostspec) (shards : list shard_def
            (regs : option regions) (ds : list N) (obs : outcome) : bool :=
   outcome_agree (launch ttl tick fleet shards regs ds) obs.
 
+(** * Set-valued comparison: is the observed outcome one the specification allows, whatever the
+    random source returned?  Executable versions of [must_refuse] and [shard_block_ok]
+    (proved equivalent / sound in proofs/LaunchProofs.v). *)
+
+Definition unplaceableb (ttl tick : N) (fleet : list hostspec) (r : regions) (sd : shard_def) : bool :=
+  negb (sumN (rg_count r) =? nlen (sd_members sd)) ||
+  existsb (fun p => n_suitable ttl tick (sd_id sd) (fst p) fleet <? snd p) (combine (rg_region r) (rg_count r)).
+
+Definition must_refuseb (ttl tick : N) (fleet : list hostspec) (shards : list shard_def)
+           (regs : option regions) : bool :=
+  match regs with
+  | None => true
+  | Some r => negb (nlen (rg_region r) =? nlen (rg_count r)) || has_dup [] (rg_region r) ||
+              existsb (unplaceableb ttl tick fleet r) shards
+  end.
+
+Fixpoint lookup_hosts (fleet : list hostspec) (addrs : list N) : option (list hostspec) :=
+  match addrs with
+  | [] => Some []
+  | a :: rest =>
+      match List.find (fun h => h_addr h =? a) fleet with
+      | None => None
+      | Some h => match lookup_hosts fleet rest with None => None | Some hs => Some (h :: hs) end
+      end
+  end.
+
+Fixpoint nodupb (l : list N) : bool :=
+  match l with [] => true | x :: rest => negb (memN x rest) && nodupb rest end.
+
+Definition quota_okb (r : regions) (hs : list hostspec) : bool :=
+  forallb (fun p => nlen (List.filter (fun h => fst p =? h_region h) hs) =? snd p)
+          (combine (rg_region r) (rg_count r)) &&
+  forallb (fun h => memN (h_region h) (rg_region r)) hs.
+
+Definition req_coreb (sd : shard_def) (rafts : list N) (q : request) : bool :=
+  rtype_eqb (q_type q) RCreate && (q_shard q =? sd_id sd) && (q_ccid q =? 0) &&
+  nl_eqb (q_members q) (sd_members sd) && nl_eqb (q_rids q) (sd_members sd) && nl_eqb (q_addrs q) rafts &&
+  negb (q_join q) && negb (q_restore q) && (q_app q =? sd_app sd).
+
+(** everything [shard_block_ok] asks for except request validation *)
+Definition block_coreb (ttl tick : N) (fleet : list hostspec) (r : regions) (sd : shard_def) (qs : list request) : bool :=
+  let rafts := map q_raft qs in
+  match lookup_hosts fleet rafts with
+  | None => false
+  | Some hs =>
+      nl_eqb (map q_inst qs) (sd_members sd) && nodupb rafts &&
+      forallb (fun h => is_live ttl tick h && negb (hosts_shard h (sd_id sd))) hs &&
+      quota_okb r hs && forallb (req_coreb sd rafts) qs
+  end.
+
+Definition block_okb (ttl tick : N) (fleet : list hostspec) (r : regions) (sd : shard_def) (qs : list request) : bool :=
+  block_coreb ttl tick fleet r sd qs && forallb validate_request qs.
+
+Definition wf_shardb (sd : shard_def) : bool :=
+  negb (nlen (sd_members sd) =? 0) && nodupb (sd_members sd) && negb (memN 0 (sd_members sd)) && negb (sd_app sd =? 0).
+
+(** the plan cut into consecutive blocks, one per shard; [strict]: ask for validation of every request,
+    otherwise only for the requests of well-formed shard definitions (the precondition of C08_valid) *)
+Fixpoint blocks_okb (strict : bool) (ttl tick : N) (fleet : list hostspec) (r : regions)
+         (shards : list shard_def) (qs : list request) : bool :=
+  match shards with
+  | [] => match qs with [] => true | _ => false end
+  | sd :: rest =>
+      let n := length (sd_members sd) in
+      block_coreb ttl tick fleet r sd (firstn n qs) &&
+      (negb (strict || wf_shardb sd) || forallb validate_request (firstn n qs)) &&
+      blocks_okb strict ttl tick fleet r rest (skipn n qs)
+  end.
+
+Definition allowed (ttl tick : N) (fleet : list hostspec) (shards : list shard_def)
+           (regs : option regions) (obs : outcome) : bool :=
+  match obs with
+  | Plan qs =>
+      negb (must_refuseb ttl tick fleet shards regs) &&
+      match regs with Some r => blocks_okb false ttl tick fleet r shards qs | None => false end
+  | Refused => must_refuseb ttl tick fleet shards regs
+  | OutOfDraws => true
+  | Crash => false
+  end.
+
+(** code of a launch case: 0 = the model's outcome for the same script equals the observed one,
+    1 = it differs but the observed outcome is allowed by the specification (a different use of the
+    random values), 2 = the observed outcome is not allowed *)
+Definition lcode (ttl tick : N) (fleet : list hostspec) (shards : list shard_def)
+           (regs : option regions) (ds : list N) (obs : outcome) : N :=
+  if lcase ttl tick fleet shards regs ds obs then 0
+  else if allowed ttl tick fleet shards regs obs then 1 else 2.
+
+(** indexes of the cases with code [k] *)
+Definition codes_with (k : N) (l : list N) : list N := false_ix (map (fun c => negb (c =? k)) l).
+
 (** request validation case: model of validateNodeHostRequest = observed (true = no panic) *)
 Definition vcase (q : request) (obs : bool) : bool := Bool.eqb (validate_request q) obs.
+
+(** same as a code: 0 = agree, 2 = disagree *)
+Definition vcode (q : request) (obs : bool) : N := if vcase q obs then 0 else 2.
 
 (** shorthand for an observed launch request *)
 Definition lreq (sid : N) (members : list N) (ccid : N) (rids addrs : list N) (inst raft : N)
